@@ -488,6 +488,14 @@ func (o *orch) writeEvidence(m *sim.WorkerResult, distinct, nViol, knownHit int,
 	if len(zeroProbes) > 0 {
 		fmt.Printf("NOTE: expected probes that never fired in this batch (the workload did not reach them): %s\n", strings.Join(zeroProbes, ", "))
 	}
+	// counters that stay at zero on a tree where the harness and the node agree: a block the harness author believes
+	// valid but a clean node refuses, a panic inside the node, in-memory state that differs from the committed one.
+	// Not a verdict (the author is not an oracle) - but somebody should look.
+	for _, k := range []string{"author:block_rejected_by_scratch_node", "node_under_test_panics", "byproduct:in_memory_state_differs_from_committed_state"} {
+		if v := m.Stats[k]; v > 0 {
+			fmt.Printf("NOTE: counter %s = %d in this batch (0 on the tree the harness was built against)\n", k, v)
+		}
+	}
 	samples := []any{}
 	for _, s := range m.Samples {
 		samples = append(samples, s)
